@@ -114,6 +114,29 @@ Theorem C10_close_nothing_more : forall vr iv es s s',
 Proof. exact Proofs_wedge.close_frozen. Qed.
 Print Assumptions C10_close_nothing_more.
 
+(* ---- degenerate subscriptions: a context that has already ended ----------------------------- *)
+
+(* Subscribe on an OPEN batcher always registers the subscriber and starts its forwarder — also when
+   the context passed has already ended (c = true), or ended while the call was still waiting for
+   the lock: there is no "nothing would ever be forwarded" fast path. *)
+Theorem C10_subscribe_open_registers : forall vr iv s j s',
+  step vr iv s (SubscribeLocked j) = Some s' -> closed s = false ->
+  exists id p c b, nth_error (pend_subs s) j = Some (id, (p, c)) /\ subs s' = subs s ++ [b] /\
+    accepted b = true /\ registered b = true /\ fwd b = Idle /\ ctx_done b = c /\
+    user_closed b = false.
+Proof. exact Proofs_wedge.subscribe_open_registers. Qed.
+Print Assumptions C10_subscribe_open_registers.
+
+(* ... and whenever the batcher has come to rest with the lock free, the channel of EVERY accepted
+   subscription whose context has ended — before, during or after its Subscribe call — has been
+   closed, with or without Close, and its forwarder is gone. *)
+Theorem C10_departed_channel_closed : forall vr iv s,
+  reachable vr iv s -> stuck vr iv s -> lock s = Free ->
+  forall b, In b (subs s) -> accepted b = true -> ctx_done b = true ->
+    fwd b = Exited /\ user_closed b = true /\ registered b = false.
+Proof. exact Proofs_wedge.departed_closed. Qed.
+Print Assumptions C10_departed_channel_closed.
+
 (* ---- departures never wedge it ---------------------------------------------------------- *)
 
 (* Current code. In every reachable state in which none of the batcher's own steps is possible,
